@@ -254,7 +254,8 @@ pub fn generate(seed: u64, class: &str) -> Scenario {
         docs = vec!["{\"s\": \"h\", \"a\": [3, -1]}".to_string(), "{\"s\": \"n07\", \"a\": [-4]}".to_string()];
     }
     if longrun {
-        pre = vec![(true, "map(&abs(@), a)[0]".to_string())];
+        pre = vec![(true, "map(&abs(@), a)".to_string())];
+        docs = vec!["{\"a\": [-1]}".to_string()];
     }
     if bigsort {
         let ys: Vec<J> = (0..4600).map(|i| J::Int(((i * 7919) % 4001) as i64)).collect();
@@ -315,7 +316,8 @@ pub fn generate(seed: u64, class: &str) -> Scenario {
             }
         }
         if longrun {
-            for _ in 0..1100 {
+            // 4 x 1030 = 4120 searches: just past a 4096 period
+            for _ in 0..1030 {
                 ops.push(Op::Search { e: 0, d: 0, form: 0 });
             }
         }
